@@ -221,10 +221,10 @@ type vuOp struct {
 type vuHistCfg struct {
 	pSensitive float64
 	twins      bool // interleave sensitive / non-sensitive fields with equal name and value
-	// avoidKnown restricts the size-change operations to shapes that do not run into the two
-	// size-update defects of the pinned tree (see C01), so that everything else is still
-	// exercised over long histories: at most one change between two blocks and the limit is
-	// never lowered below the current maximum size.
+	// avoidKnown restricts the size-change operations to shapes for which the encoder emits a
+	// single size update (the pinned Decoder refuses the second of two leading updates, see
+	// C01), so that everything else is still exercised over long histories: at most one change
+	// between two blocks and the limit is never lowered below the current maximum size.
 	avoidKnown bool
 	// tagSensitive appends a unique "#s<n>" tag to the value of about half of the sensitive
 	// fields; a tagged value is never written as a non-sensitive field, so finding it in any
